@@ -9,7 +9,7 @@ from . import common
 
 ID = 'C02'
 LEVEL = 'exploration'
-RUNS = {'quick': 9600}
+RUNS = {'quick': 6400}
 BUDGET_S = {'thorough': 600}
 RULE = ('one evaluation = one simulated session: 1-4 simulated Wayland connections (client- and server-side logs, all printer '
         'dialects) whose ids are allocated the way libwayland\'s wl_map does (client ids reused LIFO only after delete_id was '
